@@ -26,6 +26,10 @@ class InjectedIOError(OSError):
     pass
 
 
+class InjectedTaskFailure(RuntimeError):
+    """The simulated scheduler lost a task (worker crash / cancellation) at a seeded point of a run."""
+
+
 def _norm_index(idx, ndim):
     if not isinstance(idx, tuple):
         idx = (idx,)
